@@ -8,6 +8,7 @@ import (
 	"os"
 	"os/exec"
 	"path/filepath"
+	"regexp"
 	"sort"
 	"strings"
 	"time"
@@ -66,6 +67,19 @@ func runSolver(s solverSpec, file string, timeoutMs int, nObl int) (map[int]stri
 	return res, time.Since(start).Seconds(), strings.Join(diag, "\n")
 }
 
+var constDef = regexp.MustCompile(`(?m)^\(declare-const (\S+) (.+)\)\n\(assert \((=|=>) (\S+) (.*)\)\)$`)
+
+// macroRendering turns "constant with defining equation" pairs back into define-fun macros.
+func macroRendering(txt string) string {
+	return constDef.ReplaceAllStringFunc(txt, func(m string) string {
+		g := constDef.FindStringSubmatch(m)
+		if g[1] != g[4] {
+			return m
+		}
+		return fmt.Sprintf("(define-fun %s () %s %s)", g[1], g[2], g[5])
+	})
+}
+
 var noIncremental = true
 
 // solverSlots bounds the number of obligations being solved at any time (each may start up to three processes)
@@ -78,7 +92,11 @@ func raceSolvers(file string, timeoutMs int) (string, string) {
 	defer cancel()
 	// stage 1: the first back end alone (it decides the large majority within milliseconds)
 	if len(solvers) > 1 {
-		argv := solvers[0].argv(file, timeoutMs)
+		t1 := timeoutMs
+		if t1 > 2500 {
+			t1 = 2500
+		}
+		argv := solvers[0].argv(file, t1)
 		out, _ := exec.CommandContext(ctx, argv[0], argv[1:]...).CombinedOutput()
 		for _, l := range strings.Split(string(out), "\n") {
 			l = strings.TrimSpace(l)
@@ -92,7 +110,16 @@ func raceSolvers(file string, timeoutMs int) (string, string) {
 	}
 	rest := solvers
 	if len(solvers) > 1 {
-		rest = solvers[1:]
+		rest = append([]solverSpec{}, solvers...)
+		// the macro rendering of the same query (define-fun instead of constants with equations) suits some goals better
+		if txt, err := os.ReadFile(file); err == nil {
+			mf := file + ".macro.smt2"
+			if os.WriteFile(mf, []byte(macroRendering(string(txt))), 0o644) == nil {
+				defer os.Remove(mf)
+				s0 := solvers[0]
+				rest = append([]solverSpec{{s0.name + "/macro", func(_ string, t int) []string { return s0.argv(mf, t) }}}, rest...)
+			}
+		}
 	}
 	ch := make(chan r, len(rest))
 	for _, s := range rest {
